@@ -376,6 +376,14 @@ def M_string_push_str(it, ctx, args, st):
     yield st, UNIT
 
 
+def M_string_clear(it, ctx, args, st):
+    p = args[0]
+    while isinstance(st.deref(p), Ptr):
+        p = st.deref(p)
+    st.write(p, bstr(b''))
+    yield st, UNIT
+
+
 def M_btreeset_contains_str(it, ctx, args, st):
     s = st.deref_all(args[0])
     x = sval(st, args[1])
@@ -1879,6 +1887,28 @@ def M_slice_split_at(it, ctx, args, st):
             yield s2, Panic('mid > len in split_at', ctx.fr.fn.name)
 
 
+def M_str_split_at(it, ctx, args, st):
+    """str::split_at(mid): panics unless mid <= len and mid is on a char boundary"""
+    s = sval(st, args[0])
+    mid = args[1]
+    for s2, ok in fork_bool(it, st, z3.And(z3.ULE(mid, s.len), is_char_boundary(s, mid))):
+        if ok:
+            yield s2, Agg('tuple', (s2.ref(bstr_slice(s, bv(0), mid)), s2.ref(bstr_slice(s, mid, s.len))))
+        else:
+            yield s2, Panic('str::split_at: mid out of bounds / not on a char boundary', ctx.fr.fn.name)
+
+
+def M_eq_ignore_ascii_case(it, ctx, args, st):
+    """str / [u8] ::eq_ignore_ascii_case: same length and bytes equal after ASCII lower-casing"""
+    a, b = sval(st, args[0]), sval(st, args[1])
+    low = lambda x: z3.If(z3.And(z3.UGE(x, 65), z3.ULE(x, 90)), x + 32, x)
+    n = min(len(a.bytes), len(b.bytes))
+    conds = [a.len == b.len, z3.ULE(a.len, bv(n))]
+    for k in range(n):
+        conds.append(z3.Or(z3.ULE(a.len, bv(k)), low(a.bytes[k]) == low(b.bytes[k])))
+    yield st, z3.And(*conds)
+
+
 def M_str_split_at_checked(it, ctx, args, st):
     """str::split_at_checked(mid): Some((head, tail)) iff mid <= len and mid is on a char boundary"""
     s = sval(st, args[0])
@@ -2018,6 +2048,65 @@ def is_peekable(it, ctx, args, st):
     v = args[0]
     v = st.deref_all(v) if isinstance(v, Ptr) else v
     return isinstance(v, Agg) and v.name == 'Peekable'
+
+
+# ---- TakeWhile<I, P> over any iterator type: Agg('TakeWhile', (inner, pred, done))
+def M_iter_take_while(it, ctx, args, st):
+    yield st, Agg('TakeWhile', (args[0], args[1], False))
+
+
+def M_take_while_next(it, ctx, args, st):
+    p = args[0]
+    while isinstance(st.deref(p), Ptr):
+        p = st.deref(p)
+    tw = st.deref(p)
+    if tw.fields[2]:
+        yield st, it.none
+        return
+    I = _peekable_I(ctx)
+    for s2, r in _peek_inner_next(it, ctx, p, I, st):
+        if is_abnormal(r):
+            yield s2, r
+            continue
+        for s3, some in fork_bool(it, s2, it.variant_of(r, 'Some')):
+            if not some:
+                yield s3, it.none
+                continue
+            item = it.payload(r, 'Some').fields[0]
+            for s4, keep in it.call_closure(tw.fields[1], [s3.ref(item)], s3, ctx.fr):
+                if is_abnormal(keep):
+                    yield s4, keep
+                    continue
+                for s5, k in fork_bool(it, s4, keep):
+                    if k:
+                        yield s5, it.some(item)
+                    else:
+                        s5.write(Ptr(p.addr, p.proj + (('f', 2),)), True)
+                        yield s5, it.none
+
+
+def is_take_while(it, ctx, args, st):
+    v = args[0]
+    v = st.deref_all(v) if isinstance(v, Ptr) else v
+    return isinstance(v, Agg) and v.name == 'TakeWhile'
+
+
+def M_option_string_as_deref(it, ctx, args, st):
+    """Option<String>::as_deref(&self) -> Option<&str>"""
+    o = args[0]
+    ov = st.deref_all(o) if isinstance(o, Ptr) else o
+    for s2, some in fork_bool(it, st, it.variant_of(ov, 'Some')):
+        if some:
+            yield s2, it.some(s2.ref(sval(s2, it.payload(ov, 'Some').fields[0])))
+        else:
+            yield s2, it.none
+
+
+def M_option_or(it, ctx, args, st):
+    """Option::or(self, other)"""
+    a = args[0]
+    for s2, some in fork_bool(it, st, it.variant_of(a, 'Some')):
+        yield s2, (a if some else args[1])
 
 
 def M_iter_skip_take(kind):
@@ -2492,7 +2581,15 @@ def M_fmt_format(it, ctx, args, st):
         if b < 0x80:
             out = bstr_concat(out, bstr(tmpl[i + 1:i + 1 + b]))
             i += 1 + b
-        elif b == 0xc0:
+        elif b == 0x80:
+            n = tmpl[i + 1] | (tmpl[i + 2] << 8)
+            out = bstr_concat(out, bstr(tmpl[i + 3:i + 3 + n]))
+            i += 3 + n
+        elif b in (0xc0, 0xc8):
+            if b == 0xc8:
+                # placeholder with default options and an explicit argument index (u16 LE): named/positional arguments used more than once
+                nexta = tmpl[i + 1] | (tmpl[i + 2] << 8)
+                i += 2
             a = argv[nexta]
             nexta += 1
             if a.fields[0] != 'new_display':
@@ -2650,6 +2747,9 @@ MODELS = [
     (P + r'str::<impl str>::starts_with::<char>', M_str_starts_ends_with_char(False)), (P + r'str::<impl str>::ends_with::<char>', M_str_starts_ends_with_char(True)),
     (P + r'str::<impl str>::starts_with::<&str>', M_str_starts_with_str), (P + r'str::<impl str>::ends_with::<&str>', M_str_ends_with_str),
     (P + r'slice::<impl \[u8\]>::starts_with', M_str_starts_with_str), (P + r'slice::<impl \[u8\]>::ends_with', M_str_ends_with_str),
+    (ITER + r'take_while::<.*>', M_iter_take_while), (r'<' + P + r'iter::TakeWhile<.*> as ' + P + r'iter::Iterator>::next', M_take_while_next, is_take_while),
+    (P + r'option::Option::<(?:std|alloc)::string::String>::as_deref', M_option_string_as_deref),
+    (P + r'option::Option::<.*>::or', M_option_or),
     (ITER + r'peekable', M_iter_peekable), (P + r'iter::Peekable::<.*>::peek', M_peekable_peek, is_peekable),
     (r'<' + P + r'iter::Peekable<.*> as ' + P + r'iter::Iterator>::next', M_peekable_next, is_peekable),
     (ITER + r'skip', M_iter_skip_take('skip')), (ITER + r'take', M_iter_skip_take('take')), (ITER + r'chain::<.*>', M_iter_chain),
@@ -2659,7 +2759,8 @@ MODELS = [
     (ITER + r'for_each::<.*>', M_for_each), (ITER + r'rposition::<.*>', M_rposition),
     (r'<' + P + r'cmp::Ordering as ' + P + r'cmp::PartialEq>::(eq|ne)', M_ordering_eq),
     (r'<\(.*\) as ' + P + r'cmp::PartialOrd>::(lt|le|gt|ge)', M_partial_ord_cmpop),
-    (P + r'string::String::with_capacity|' + P + r'string::String::new', M_string_with_capacity), (P + r'string::String::push_str', M_string_push_str),
+    (P + r'string::String::with_capacity|' + P + r'string::String::new', M_string_with_capacity), (P + r'string::String::push_str', M_string_push_str), (P + r'string::String::clear', M_string_clear),
+    (r'<' + P + r'iter::(?:TakeWhile|Peekable)<.*> as ' + P + r'iter::IntoIterator>::into_iter', lambda it, ctx, args, st: iter([(st, args[0])])),
     (P + r'collections::BTreeSet::<' + P + r'string::String>::contains::<str>', M_btreeset_contains_str),
     (OPT + r'is_some', M_opt_is_some), (OPT + r'is_none', M_opt_is_none), (OPT + r'as_ref', M_opt_as_ref),
     (OPT + r'(cloned|copied)', M_opt_cloned), (OPT + r'take', M_opt_take), (OPT + r'transpose', M_opt_transpose),
@@ -2741,7 +2842,7 @@ MODELS = [
     (P + r'vec::Vec::<.*>::(?:new|with_capacity)', M_vec_new), (P + r'vec::Vec::<.*>::extend_from_slice', M_vec_extend_from_slice), (P + r'vec::Vec::<.*>::len', M_vec_len), (P + r'vec::Vec::<.*>::is_empty', M_vec_is_empty),
     (P + r'vec::Vec::<.*>::push', M_vec_push),
     (r'<' + P + r'vec::Vec<.*> as ' + P + r'ops::Deref(Mut)?>::deref(_mut)?', M_vec_deref),
-    (P + r'cell::RefCell::<.*>::borrow(_mut)?', M_refcell_borrow), (P + r'cell::RefCell::<.*>::new', M_refcell_new), (P + r'cell::RefCell::<.*>::replace', M_refcell_replace), (P + r'mem::replace::<.*>', M_mem_replace), (P + r'mem::take::<.*>', M_mem_take), (P + r'slice::<impl \[u8\]>::split_at', M_slice_split_at), (P + r'str::<impl str>::split_at_checked', M_str_split_at_checked), (ITER + r'zip::<.*>', M_iter_zip), (r'<\[u8\] as ' + P + r'ops::Index<' + P + r'ops::Range\w*(?:<usize>)?>>::index', M_bytes_index_range), (P + r'str::<impl str>::strip_prefix::<char>', M_strip_prefix_char),
+    (P + r'cell::RefCell::<.*>::borrow(_mut)?', M_refcell_borrow), (P + r'cell::RefCell::<.*>::new', M_refcell_new), (P + r'cell::RefCell::<.*>::replace', M_refcell_replace), (P + r'mem::replace::<.*>', M_mem_replace), (P + r'mem::take::<.*>', M_mem_take), (P + r'slice::<impl \[u8\]>::split_at', M_slice_split_at), (P + r'str::<impl str>::split_at_checked', M_str_split_at_checked), (P + r'str::<impl str>::split_at', M_str_split_at), (P + r'(?:str::<impl str>|slice::ascii::<impl \[u8\]>)::eq_ignore_ascii_case', M_eq_ignore_ascii_case), (ITER + r'zip::<.*>', M_iter_zip), (r'<\[u8\] as ' + P + r'ops::Index<' + P + r'ops::Range\w*(?:<usize>)?>>::index', M_bytes_index_range), (P + r'str::<impl str>::strip_prefix::<char>', M_strip_prefix_char),
     (r'<' + P + r'cell::Ref(Mut)?<.*> as ' + P + r'ops::Deref(Mut)?>::deref(_mut)?', M_guard_deref),
     (P + r'boxed::Box::<.*>::new_uninit', M_box_new_uninit), (P + r'boxed::box_assume_init_into_vec_unsafe::<.*>', M_box_assume_init_into_vec),
     (P + r'boxed::Box::<.*>::new', M_box_new), (P + r'sync::Arc::<.*>::new', M_arc_new),
